@@ -1,6 +1,6 @@
 (* DrvRead.v — line-protocol commands for the binary reader model (K2). *)
 From Coq Require Import String List NArith ZArith Bool.
-From IonV Require Import Base.Wire Bin.Bits Data.Ion Bin.BitStream Bin.BinReader.
+From IonV Require Import Base.Wire Bin.Bits Data.Ion Bin.BitStream Bin.BinReader Num.Calendar Num.Timestamp.
 Import ListNotations.
 Open Scope N_scope.
 
@@ -21,22 +21,46 @@ Fixpoint parse_rops (ts : list (list N)) : option (list rop) :=
               end
   end.
 
-(* placeholder until Num/Timestamp.v is wired in: every timestamp body is accepted *)
-Definition ts_ok_default (body : list N) : res unit := Ok tt.
+(* ReadTimestamp on the sliced body: the model of Num/Timestamp.v for the repaired tree *)
+Definition ts_ok_default (body : list N) : res unit :=
+  match read_ts_body patched (N.of_nat (length body)) body with
+  | Ok _ => Ok tt
+  | Err => Err
+  | Panic => Panic
+  | OutOfFuel => OutOfFuel
+  end.
+
+(* the reader model carries a timestamp as its binary body and prints "T" ++ hex; the harness prints the
+   Timestamp's fields: render the model's token the same way *)
+Definition canon_ts_token (t : list N) : list N :=
+  match t with
+  | 84 :: h =>
+    match unhex h with
+    | Some body =>
+      match read_ts_body patched (N.of_nat (length body)) body with
+      | Ok x => 84 :: concat (map (fun f => dec_of_Z f ++ [44]) (removelast (ts_fields x)))
+                   ++ dec_of_Z (last (ts_fields x) 0%Z)
+      | _ => t
+      end
+    | None => t
+    end
+  | _ => t
+  end.
+Definition canon_tokens (ts : list (list N)) : list (list N) := map canon_ts_token ts.
 
 Definition drv_read (cmd : list N) (args : list (list N)) : option (list N) :=
   if tok_is cmd "brd" then
     match args with
     | e :: b :: ops =>
       match parse_xhex b, parse_rops ops with
-      | Some x, Some p => Some (join_sp (snd (r_run ts_ok_default (r_init x (tok_is e "1")) p [])))
+      | Some x, Some p => Some (join_sp (canon_tokens (snd (r_run ts_ok_default (r_init x (tok_is e "1")) p []))))
       | _, _ => None
       end
     | _ => None
     end
   else if tok_is cmd "btrav" then
     match args with
-    | [e; b] => option_map (fun x => join_sp (fst (traverse ts_ok_default x (tok_is e "1")))) (parse_xhex b)
+    | [e; b] => option_map (fun x => join_sp (canon_tokens (fst (traverse ts_ok_default x (tok_is e "1"))))) (parse_xhex b)
     | _ => None
     end
   else if tok_is cmd "balloc" then
